@@ -393,6 +393,52 @@ def povmMatrixSparseMd {d n : Nat} (B : Basis CRat d n) (vecs : List (Vec CRat n
   let s ← mdSerial lens idx
   povmMatrixSparse B vecs s
 
+/-! ## mprocess.py: per-outcome and list-valued conversions -/
+
+/-- `MProcess.hs(index)` for an int index: `self.hss[index]`, IndexError past the end -/
+def mpOutcome {α : Type} (hss : List α) (index : Nat) : Except Err α :=
+  match hss[index]? with
+  | none => .error .indexError
+  | some h => .ok h
+
+/-- `MProcess.to_choi_matrix(outcome)` (plain loop), `…_with_dict`, `…_with_sparsity`, `to_process_matrix(outcome)`:
+the gate-level function applied to `self.hs(outcome)` -/
+def mpChoiLoop {d : Nat} (B : Basis CRat d (d * d)) (hss : List (Mat CRat (d * d) (d * d))) (i : Nat) :
+    Except Err (Mat CRat (d * d) (d * d)) :=
+  match mpOutcome hss i with
+  | .error e => .error e
+  | .ok hs => match choiLoop B hs with
+    | none => .error .emptyReduce
+    | some c => .ok c
+
+def mpChoiDict {d : Nat} (B : Basis CRat d (d * d)) (hss : List (Mat CRat (d * d) (d * d))) (i : Nat) :
+    Except Err (Mat CRat (d * d) (d * d)) :=
+  match mpOutcome hss i with
+  | .error e => .error e
+  | .ok hs => .ok (choiDict B hs)
+
+def mpChoiSparse {d : Nat} (B : Basis CRat d (d * d)) (hss : List (Mat CRat (d * d) (d * d))) (i : Nat) :
+    Except Err (Mat CRat (d * d) (d * d)) :=
+  match mpOutcome hss i with
+  | .error e => .error e
+  | .ok hs => .ok (choiSparse B hs)
+
+def mpProcessMatrix {d : Nat} (B : Basis CRat d (d * d)) (hss : List (Mat CRat (d * d) (d * d))) (i : Nat) :
+    Except Err (Mat CRat (d * d) (d * d)) :=
+  match mpOutcome hss i with
+  | .error e => .error e
+  | .ok hs => .ok (processMatrix B hs)
+
+/-- `MProcess.convert_basis(other_basis)` / `Gate.convert_basis` on each element: `[convert_hs(hs, basis, other) for hs in hss]` -/
+def mpConvertBasis {K : Type} [Add K] [Mul K] [Zero K] [HasConj K] {d n : Nat} (fromB toB : Basis K d n)
+    (hss : List (Mat K n n)) : List (Mat K n n) :=
+  hss.map (convertHs fromB toB)
+
+/-- `MProcess.convert_to_comp_basis(mode)` -/
+def mpConvertToComp {K : Type} [Add K] [Mul K] [Zero K] [One K] [HasConj K] {d : Nat} (B : Basis K d (d * d))
+    (rowMajor : Bool) (hss : List (Mat K (d * d) (d * d))) : List (Mat K (d * d) (d * d)) :=
+  mpConvertBasis B (compBasis d rowMajor) hss
+
 /-! ## Kraus (gate.py `to_kraus_matrices_from_hs`) — numpy's `eigh` and `sqrt` are parameters -/
 
 /-- one eigenpair as returned by `np.linalg.eigh(choi)` together with `np.sqrt(eigenvalue)` -/
@@ -706,6 +752,33 @@ def handle (args : List String) : Option String :=
       if onEq = "1" then some (showR (toVarFromChoi eps B c true))
       else if onEq = "0" then some (showR (toVarFromChoi eps B c false))
       else none
+  | ["mpChoi", variant, d, basis, m, hss, idx] => do
+      let d ← parseNat? d; let m ← parseNat? m; let idx ← parseNat? idx
+      let B ← toBasis? d (d * d) (← parseCList? basis)
+      let l ← parseCList? hss
+      if l.length ≠ m * ((d * d) * (d * d)) then none
+      let hs ← (chunks ((d * d) * (d * d)) m l).mapM (toMat? (d * d) (d * d))
+      if variant = "loop" then some (showEM (mpChoiLoop B hs idx))
+      else if variant = "dict" then some (showEM (mpChoiDict B hs idx))
+      else if variant = "sparse" then some (showEM (mpChoiSparse B hs idx))
+      else if variant = "process" then some (showEM (mpProcessMatrix B hs idx))
+      else none
+  | ["mpConvertToComp", d, basis, m, hss, mode] => do
+      let d ← parseNat? d; let m ← parseNat? m
+      let B ← toBasis? d (d * d) (← parseCList? basis)
+      let l ← parseCList? hss
+      if l.length ≠ m * ((d * d) * (d * d)) then none
+      let hs ← (chunks ((d * d) * (d * d)) m l).mapM (toMat? (d * d) (d * d))
+      let rm ← (if mode = "row_major" then some true else if mode = "column_major" then some false else none)
+      some ("ok " ++ showCList ((mpConvertToComp B rm hs).flatMap matList))
+  | ["mpConvertBasis", d, n, fromB, toB, m, hss] => do
+      let d ← parseNat? d; let n ← parseNat? n; let m ← parseNat? m
+      let F ← toBasis? d n (← parseCList? fromB)
+      let T ← toBasis? d n (← parseCList? toB)
+      let l ← parseCList? hss
+      if l.length ≠ m * (n * n) then none
+      let hs ← (chunks (n * n) m l).mapM (toMat? n n)
+      some ("ok " ++ showCList ((mpConvertBasis F T hs).flatMap matList))
   | ["kraus", d, basis, hs, vals, sqrts, vecs, abss, atol, atolSettings] => do
       let d ← parseNat? d
       let B ← toBasis? d (d * d) (← parseCList? basis)
